@@ -1,5 +1,6 @@
 CONSTANTS FlawShallowListFreeze = FALSE
  FlawSharedConstants = TRUE
+ FlawSharedLiterals = FALSE
  FlawInPlaceSort = FALSE
  FlawAppendSharesCapacity = FALSE
  FlawSortedAliasesOrdered = FALSE
